@@ -10,6 +10,7 @@ CONSTANTS
   Dev_NdKeyStr = TRUE
   Dev_NdValIndex = TRUE
   Dev_CsIndex = TRUE
+  Dev_SizeHint = TRUE
   Emit = TRUE
   Scen = {"deref", "links", "kids"}
 INVARIANTS PcOK Bounded RsrcDepth EmitInv
